@@ -25,7 +25,7 @@ TRUSTED = [
 ASSUMPTIONS = ["pinv left-inverse clause is judged only when the mode matrix has full column rank (exact rank check)"]
 
 
-def check_basis(ctx, kind, X, nm, idx):
+def check_basis(ctx, kind, X, nm, idx, layout=None):
     from pysensors.basis import SVD, Custom, Identity, RandomProjection
     rng = ctx.rng
     ne, nf = X.shape
@@ -53,11 +53,18 @@ def check_basis(ctx, kind, X, nm, idx):
                 pass
             if kind == "identity" and nm is None:
                 b = models.make_basis(kind, nm, random_state=3)      # Identity() freezes its default (known finding of C15)
+        # memory layout of the caller's array (values identical): C order, Fortran order, a transposed view, a strided view
+        layout = layout or rng.choice(["C", "C", "F", "T", "strided"])
+        base["layout"] = layout
+        Xin = laid_out(X, layout)
+        ctx.count("layout:" + layout)
         try:
-            b.fit(X.copy())
+            b.fit(Xin)
         except ValueError:
             ctx.count("fit_rejected")
             return
+        # the caller goes on using its own array: a fitted basis is a function of the data at fit time
+        Xin[...] = Xin * 0 + 7
     full = np.array(b.matrix_representation())
     nmodes = b.n_basis_modes
     cols_expected = min(nmodes, ne) if kind == "svd" else nmodes
@@ -119,7 +126,7 @@ def check_basis(ctx, kind, X, nm, idx):
         want = X.T @ comp.T
         if not np.allclose(full, want, atol=tol):
             return bad("rp-combination", "RandomProjection modes are not the training examples combined by the projection matrix")
-        b2 = models.make_basis(kind, nm, random_state=3).fit(X.copy())
+        b2 = models.make_basis(kind, nm, random_state=3).fit(laid_out(X, base.get("layout", "C")))
         if not np.array_equal(np.array(b2.matrix_representation()), full):
             return bad("rp-repeat", "RandomProjection with a fixed random_state does not repeat")
         for k in range(1, nmodes + 1):
@@ -131,6 +138,19 @@ def check_basis(ctx, kind, X, nm, idx):
             if inv.shape != (k, nf) or not np.allclose(inv @ Bk, np.eye(k), atol=1e-7 * np.linalg.cond(Bk)):
                 return bad("rp-left-inverse", f"matrix_inverse({k}) is not a left inverse of the mode matrix", k=k)
     ctx.sample({"basis": kind, "shape": list(X.shape), "n_basis_modes": nmodes, "matrix_shape": list(full.shape)}, limit=5)
+
+
+def laid_out(X, layout):
+    """a fresh array with X's values in the given memory layout"""
+    ne, nf = X.shape
+    if layout == "F":
+        return np.asfortranarray(X.copy())
+    if layout == "T":
+        return np.ascontiguousarray(X.T.copy()).T
+    if layout == "strided":
+        big = np.zeros((2 * ne, 2 * nf)); big[::2, ::2] = X
+        return big[::2, ::2]
+    return X.copy()
 
 
 def run(ctx: C.Ctx):
@@ -153,5 +173,5 @@ def run(ctx: C.Ctx):
 
 def replay(ctx: C.Ctx, payload):
     d = payload["data"]
-    check_basis(ctx, d["basis"], np.array(d["X"], dtype=float), d["n_modes"], 0)
+    check_basis(ctx, d["basis"], np.array(d["X"], dtype=float), d["n_modes"], 0, layout=d.get("layout"))
     print("# replayed:", payload.get("what"))
